@@ -34,6 +34,7 @@ type RunConfig struct {
 	TimeoutMs int
 	NoMerge   bool
 	NoReplay  bool
+	XSolver   string
 	Seed      int
 }
 
@@ -53,6 +54,12 @@ func runHarness(ld *Loaded, fn *ssa.Function, cfg *RunConfig) (h *HarnessRun, e 
 		return
 	}
 	e.sol = sol
+	if cfg.Tier == "thorough" && cfg.XSolver != "" && cfg.XSolver != cfg.Solver {
+		if xs, err := NewSolver(e.tc, cfg.XSolver, cfg.TimeoutMs); err == nil {
+			e.xsol = xs
+			defer xs.Close()
+		}
+	}
 	sol.resetMode = os.Getenv("VERIF_RESET") != ""
 	if p := os.Getenv("VERIF_SOLVERLOG"); p != "" {
 		if f, err := os.Create(p + "." + fn.Name() + ".smt2"); err == nil {
@@ -228,6 +235,7 @@ func cmdRun(args []string) int {
 	fs.IntVar(&cfg.Workers, "j", 14, "parallel harnesses")
 	fs.StringVar(&cfg.Solver, "solver", "z3-new", "solver binary")
 	fs.IntVar(&cfg.TimeoutMs, "timeout", 0, "per-query timeout ms")
+	fs.StringVar(&cfg.XSolver, "xsolver", "z3", "second solver used to cross-check assertion obligations in the thorough tier (empty = off)")
 	fs.BoolVar(&cfg.NoMerge, "nomerge", false, "disable state merging")
 	fs.BoolVar(&cfg.NoReplay, "noreplay", false, "skip native replay")
 	fs.Parse(args)
